@@ -54,7 +54,9 @@ type Term struct {
 	val     uint64
 	name    string
 	id      int
-	emitted int // solver epoch in which this node was defined
+	emitted int   // solver epoch in which this node was defined
+	sv      *Term // the only variable below this node (nil: none or several)
+	multi   bool  // several variables below this node
 }
 
 type termKey struct {
@@ -84,6 +86,27 @@ func (s *TermStore) mk(k termKey) *Term {
 	}
 	s.nextID++
 	t := &Term{op: k.op, w: k.w, a: k.a, b: k.b, c: k.c, val: k.val, name: k.name, id: s.nextID}
+	if k.op == OpVar {
+		t.sv = t
+	} else {
+		for _, ch := range [3]*Term{k.a, k.b, k.c} {
+			if ch == nil {
+				continue
+			}
+			if ch.multi {
+				t.multi = true
+			} else if ch.sv != nil {
+				if t.sv == nil {
+					t.sv = ch.sv
+				} else if t.sv != ch.sv {
+					t.multi = true
+				}
+			}
+		}
+		if t.multi {
+			t.sv = nil
+		}
+	}
 	s.tab[k] = t
 	return t
 }
